@@ -72,6 +72,10 @@ def _check_main(run, P):
              "is made, the value stored, the event produced, the exception raised",
              minimum=12)
     _effects(run, P)
+    run.rule("C01.arrays", "array constants have the element type the interpreter gives "
+             "them; the bounds of an inner array loop are evaluated inside the outer "
+             "loop, in both back ends", minimum=3)
+    _arrays(run, P)
     run.rule("C01.builder", "builder bookkeeping: guards, fresh names and the "
              "dependency edges that make every admissible order equal the written order "
              "(shared with C02)", minimum=25)
@@ -159,6 +163,58 @@ def _alias(run, src_rule, dst_rule, thunk):
     if not had:
         del run.rule_docs[src_rule]
         del run.minimum[src_rule]
+
+
+# {{{ arrays and loop nests
+
+def _arrays(run, P):
+    ev = P.cls("pymbolic.mapper.evaluator.EvaluationMapper")
+    ma = P.method(ev, "map_numpy_array")
+    lib_object = ma is not None and "dtype=object" in ast.unparse(ma.node)
+    gm = P.func("dagrt.codegen.expressions.PythonExpressionMapper.map_numpy_array")
+    tmpl = [string_value(x.func.value) for x in ast.walk(gm.node)
+            if isinstance(x, ast.Call) and isinstance(x.func, ast.Attribute) and x.func.attr == "format"
+            and string_value(x.func.value)]
+    gen_object = any("dtype='object'" in t or "dtype=object" in t for t in tmpl if t)
+    run.ob("C01.arrays", gm, gm.node, lib_object and gen_object,
+           construct=f"array constant: interpreter builds dtype=object ({lib_object}); generated text "
+                     f"says {'dtype=object' if gen_object else 'no dtype'}",
+           why="an all-integer constant becomes an int64 array in generated code: later "
+               "element stores of fractions are truncated there and nowhere else")
+    # interpreter: bounds of loop k are evaluated while loops 0..k-1 are bound
+    ea = P.func(f"{INTERP}.exec_Assign")
+    early = [x for x in ast.walk(ea.node) if isinstance(x, (ast.ListComp, ast.GeneratorExp, ast.SetComp))
+             and any("loops" in ast.unparse(g_.iter) for g_ in x.generators)
+             and any(isinstance(y, ast.Call) and dotted(y.func) == "self.eval_mapper" for y in ast.walk(x.elt))]
+    nested = [g_ for g_ in ea.nested.values() if any(
+        isinstance(y, ast.Call) and isinstance(y.func, ast.Name) and y.func.id == g_.name
+        for y in ast.walk(g_.node))]
+    rec_in_loop = False
+    for g_ in nested:
+        for lp in [n for n in ast.walk(g_.node) if isinstance(n, ast.For)]:
+            evals = any(isinstance(y, ast.Call) and dotted(y.func) == "self.eval_mapper"
+                        for y in ast.walk(lp.iter))
+            recs = any(isinstance(y, ast.Call) and isinstance(y.func, ast.Name) and y.func.id == g_.name
+                       for b in lp.body for y in ast.walk(b))
+            binds = any(isinstance(y, ast.Assign) and any(
+                isinstance(t, ast.Subscript) and dotted(t.value) == "self.context" for t in y.targets)
+                for b in lp.body for y in ast.walk(b))
+            if evals and recs and binds:
+                rec_in_loop = True
+    run.ob("C01.arrays", ea, early[0] if early else ea.node, rec_in_loop and not early,
+           construct="interpreter: each loop evaluates its own bounds, binds its identifier, then "
+                     "enters the remaining loops" + ("; found all bounds evaluated up front" if early else ""),
+           why="bounds evaluated before any identifier is bound: a triangular nest "
+               "[(i,0,n),(j,0,i+1)] raises UnknownVariableError in the interpreter while "
+               "generated code runs it")
+    gl = P.func("dagrt.codegen.dag_ast.loop_to_ast_node")
+    src = ast.unparse(gl.node)
+    run.ob("C01.arrays", gl, gl.node, "loops[0]" in src and "loops[1:]" in src and "lbound" in src,
+           construct="generated code: one ForLoop node per loop, outermost first, bounds kept as "
+                     "expressions of the node (C05.loops has the details)",
+           why="the emitted nest evaluates inner bounds inside the outer loop")
+
+# }}}
 
 
 # {{{ effects
